@@ -68,6 +68,81 @@ func shiftCheck(c *Ctx, fn *ssa.Function, name string, want [][3]string) int {
 	if !okMake {
 		return 1
 	}
+	// the result is written element by element and handed back, nothing else: a copy() into it, or handing it to
+	// a helper, writes bytes the contributions below do not account for
+	if mk.Referrers() != nil {
+		for _, r := range *mk.Referrers() {
+			switch y := r.(type) {
+			case *ssa.IndexAddr, *ssa.Return, *ssa.DebugRef, *ssa.Phi:
+			case *ssa.Call:
+				if bi, ok := y.Call.Value.(*ssa.Builtin); ok && bi.Name() == "len" {
+					continue
+				}
+				c.Undecided("T-shift", name+"/other-writes", y.Pos(), name+" hands its result buffer to "+y.Call.Value.Name()+": bytes written there are not read as shift contributions")
+				return 2
+			default:
+				what := fmt.Sprintf("%T", r)
+				if sl, ok := r.(*ssa.Slice); ok && sl.Referrers() != nil {
+					for _, r2 := range *sl.Referrers() {
+						if call, ok := r2.(*ssa.Call); ok {
+							what = "a part of it handed to " + call.Call.Value.Name()
+						}
+					}
+				}
+				c.Undecided("T-shift", name+"/other-writes", r.Pos(), name+" uses its result buffer in a way that is not an element access ("+what+"): bytes written there are not read as shift contributions")
+				return 2
+			}
+		}
+	}
+	// a return that does not come after the combining loop hands back zeroes: it may be taken only where no bit of
+	// the operand stays in the result (n < 0 or n >= 8*len(x))
+	{
+		var loopHdr *ssa.BasicBlock
+		for _, b := range fn.Blocks {
+			if isLoopHeader(b) {
+				loopHdr = b
+				break
+			}
+		}
+		for _, b := range fn.Blocks {
+			r, ok := b.Instrs[len(b.Instrs)-1].(*ssa.Return)
+			if !ok || loopHdr == nil || loopHdr.Dominates(b) {
+				continue
+			}
+			early := ""
+			for ln := int64(1); ln <= 4 && early == ""; ln++ {
+				for nn := int64(0); nn < ln*8 && early == ""; nn++ {
+					asg := map[string]*big.Int{"len(p0)": big.NewInt(ln), "p1": big.NewInt(nn)}
+					taken := false
+					alts, okp := regionPaths(fn.Blocks[0], b, 64)
+					if !okp {
+						early = "the conditions before the loop cannot be enumerated"
+					}
+					for _, alt := range alts {
+						all := true
+						for _, dc := range alt {
+							v, ok := evalTerm(env.Term(dc.cond), asg)
+							if !ok {
+								early = "a condition before the loop is not a function of len(x) and n: " + atomName(env.Term(dc.cond))
+								break
+							}
+							if (v.Sign() != 0) != dc.truth {
+								all = false
+								break
+							}
+						}
+						if all {
+							taken = true
+						}
+					}
+					if early == "" && taken {
+						early = fmt.Sprintf("with len(x)=%d and n=%d the function returns before combining any bytes although bits of the operand stay in the result", ln, nn)
+					}
+				}
+			}
+			c.Check(early == "", "T-shift", name+"/early-return#"+instrOrdinal(r.Results[0])+fmt.Sprint(b.Index), r.Pos(), "a return ahead of the loop is taken only when the shift leaves nothing (n < 0 or n >= 8*len)", name+": "+early)
+		}
+	}
 	// byteShift = int(n / 8), bitShift = uint(n % 8): recognised by their terms
 	const BS = "int((p1 / 8))"
 	const BIT = "uint((p1 % 8))"
